@@ -22,7 +22,7 @@ from ufl.constant import Constant
 from ufl.constantvalue import Zero
 from ufl.core.expr import Expr, ufl_err_str
 from ufl.core.terminal import FormArgument
-from ufl.core.ufl_type import UFLType, ufl_type
+from ufl.core.ufl_type import UFLType, setstate_without_cached_hash, ufl_type
 from ufl.domain import extract_unique_domain, sort_domains
 from ufl.equation import Equation
 from ufl.integral import Integral
@@ -114,6 +114,8 @@ class BaseForm(metaclass=UFLType):
         # Internal variables for caching form argument/coefficient data
         self._arguments = None
         self._coefficients = None
+
+    __setstate__ = setstate_without_cached_hash
 
     # --- Accessor interface ---
     def arguments(self):
